@@ -25,16 +25,34 @@ DRIVER = "drv_calendar"
 
 META = {
     "property": "C01",
-    "proof_modules": ["PyodaProofs.C01"],
+    "proof_modules": ["PyodaProofs.C01", "PyodaProofs.C01Lemmas", "PyodaProofs.C01Instances", "PyodaProofs.C01Islamic",
+                      "PyodaProofs.C01Persian", "PyodaProofs.C01PersianSimple", "PyodaProofs.C01PersianArithmetic",
+                      "PyodaProofs.C01IsoFast"],
     "drivers": ["drv_calendar"],
     "theorems": [
+        "Pyoda.C01.getYear_spec", "Pyoda.C01.days_ymd_days", "Pyoda.C01.ymd_days_ymd", "Pyoda.C01.strict_mono",
+        "Pyoda.C01.cmp_neg_of_days_lt", "Pyoda.C01.derived_fields", "Pyoda.C01.era_roundtrip", "Pyoda.C01.eras_reachable",
+        "Pyoda.C01.out_of_range_rejected", "Pyoda.C01.invalid_fields_rejected", "Pyoda.C01.with_calendar_roundtrip",
+        "Pyoda.C01.pack_unpack", "Pyoda.C01.viaPacked_id",
+        "Pyoda.C01.greg_wf", "Pyoda.C01.jul_wf", "Pyoda.C01.copt_wf", "Pyoda.C01.isl_wf", "Pyoda.C01.islamic_wf",
+        "Pyoda.C01.persian_wf", "Pyoda.C01.persianSimple_wf", "Pyoda.C01.persianArithmetic_wf",
+        "Pyoda.C01.persianAstronomical_wf_partial",
+        "Pyoda.C01.gregorian_days_ymd_days", "Pyoda.C01.gregorian_ymd_days_ymd", "Pyoda.C01.gregorian_out_of_range_rejected",
+        "Pyoda.C01.julian_days_ymd_days", "Pyoda.C01.coptic_days_ymd_days",
+        "Pyoda.C01.greg_daysOfYmdFast_eq", "Pyoda.C01.greg_ymdOfDaysFast_eq", "Pyoda.C01.greg_validate_eq",
     ],
     "trusted_base": [
         "CPython int arithmetic; _towards_zero_division exact for the (< 10^9) operands of the calendar code",
         "the year-start caches are transparent (modelled and checked under C13)",
         "table snapshot lean/PyodaModel/Calendar/Tables.lean tied to the code by suite calendar.tables (every entry, every run)",
     ],
-    "partial": [],
+    "partial": [
+        "WF instances proved: ISO/Gregorian, Julian, Coptic, the 8 tabular Islamic calendars, Persian simple, Persian arithmetic. "
+        "Persian astronomical: persianAstronomical_wf_partial assumes the leap-year density bound Dens, which is EVALUATED on the "
+        "compiled driver (oracle 'persian-density (driver evaluation)'), not proved (kernel evaluation over the 1173-byte table "
+        "exhausts memory). Hebrew civil/scriptural, Um Al Qura, Badi: no WF instance yet; for them the generic theorems are "
+        "backed only by the exhaustive correspondence of year tables and the day suites.",
+    ],
     "rule": "year tables: every year of every calendar (exhaustive); days: first/last days of every year, sampled month "
             "boundaries, range edges, table seams, seeded random; rejection: fields and days just outside the tables; "
             "distinct = distinct op line; non-trivial = every op (each evaluates calendar arithmetic or a range check)",
@@ -771,9 +789,18 @@ def check_ids(_):
     return None
 
 
+def check_density(c):
+    """hypothesis `Dens` of the Persian WF theorems, evaluated natively by the driver (evaluation, not proof)"""
+    r = common.model_eval([f"cal.dens {c}"], DRIVER)[0]
+    if r != "1":
+        return {"key": f"persian-density-bound:{tag(c)}", "what": f"{IDS[c]}: the leap-year density bound used by the year-estimate proof evaluates to {r!r}"}
+    return None
+
+
 def run(ctx):
     t0 = time.time()
     ctx.check_cases("calendar.ids", ["ids"], check_ids, exhaustive=True)
+    ctx.check_cases("persian-density (driver evaluation)", [6, 7, 8], check_density, exhaustive=True)
     pcorrespond(ctx, "calendar.tables", chunks(gen_table_ops(), 4000), exhaustive=True)
     pcorrespond(ctx, "calendar.years", chunks(gen_year_ops(), 1500), exhaustive=True)
     ctx.note("t_years_s", round(time.time() - t0, 1))
